@@ -19,14 +19,14 @@ GROUPS = {
     "C02": [("e2e", ["e2e.order", "e2e.multiplicity"]), ("text_union", ["text_union.members", "text_union.order", "text_union.api_agree"]), ("descendant", ["process_descendant.preorder"]), ("selectors", ["process_selectors.order", "process_selectors.members"])],
     "C03": [("e2e", ["e2e.path"]), ("pointer_text", ["Pointer::key.text", "Pointer::idx.text"]), ("name_lookup", ["process_key.path", "process_key.wrong_member"]),
             ("descendant", ["process_descendant.path"]), ("requery", ["path.requery", "path.injective"])],
-    "C04": [("cmp_struct", ["eq.structural", "lt.order"]), ("e2e_cmp", ["e2e_cmp.members", "e2e_cmp.multiplicity"]), ("text_cmp", ["text_cmp.members", "text_cmp.order"])],
-    "C05": [("e2e_filter", ["e2e_filter.members", "e2e_filter.multiplicity", "e2e_filter.order"]), ("text_filter", ["text_filter.members", "text_filter.order"])],
+    "C04": [("cmp_struct", ["eq.structural", "lt.order"]), ("e2e_cmp", ["e2e_cmp.members", "e2e_cmp.multiplicity"]), ("text_cmp", ["text_cmp.members", "text_cmp.order", "text_cmp.accepts"])],
+    "C05": [("e2e_filter", ["e2e_filter.members", "e2e_filter.multiplicity", "e2e_filter.order"]), ("text_filter", ["text_filter.members", "text_filter.order", "text_filter.accepts"])],
     "C08": [("e2e", ["e2e.no_panic", "e2e.ok"]), ("arith", ["process_index.no_panic", "process_slice.no_panic"]), ("regex", ["regex.no_panic"]),
-            ("descendant", ["process_descendant.no_panic"]), ("name_lookup", ["process_key.no_panic"]), ("text_arith", ["text_arith.no_panic"]),
+            ("descendant", ["process_descendant.no_panic"]), ("name_lookup", ["process_key.no_panic"]), ("text_arith", ["text_arith.no_panic", "text_arith.accepts"]), ("text_filter", ["text_filter.no_panic", "text_filter.accepts"]), ("text_plain", ["text_plain.no_panic", "text_plain.accepts"]), ("text_union", ["text_union.no_panic", "text_union.accepts"]),
             ("custom", ["custom.no_panic", "custom.ok"])],
     "C10": [("regex", ["regex.match", "regex.search", "regex.no_panic"]), ("e2e_fn", ["e2e_fn.members", "e2e_fn.multiplicity", "e2e_fn.no_panic"])],
     "C11": [("arith", ["process_index.select", "process_slice.select", "process_index.no_panic", "process_slice.no_panic"]),
-            ("text_arith", ["text_arith.members", "text_arith.order", "text_arith.no_panic"])],
+            ("text_arith", ["text_arith.members", "text_arith.order", "text_arith.no_panic", "text_arith.accepts"])],
     "C12": [("purity", ["purity.repeat", "purity.history", "purity.parsed_once", "purity.threads"]),
             ("text_plain", ["text_plain.api_agree"]), ("text_union", ["text_union.api_agree"]), ("text_filter", ["text_filter.api_agree"]), ("text_arith", ["text_arith.api_agree"])],
     "C15": [("e2e", ["e2e.view_independent", "e2e.second_impl.members", "e2e.second_impl.multiplicity", "e2e.second_impl.order"]), ("text_filter", ["text_filter.api_agree", "text_filter.api_view_independent"]),
